@@ -161,7 +161,14 @@ def check_grid(res, par, order):
                 if not np.all((pch == 0) | (np.abs(pch - np.pi) < 4e-16)):
                     bad = ("phi not exactly 0/pi for y = 0", {})
     if bad is None:
-        m = order // 2
+        # an order that is not offered falls back to 4: the trimming helpers
+        # follow the scheme actually used (fd.fd_order), not the request
+        eff = int(getattr(fd, 'fd_order', order))
+        if eff not in (2, 4, 6, 8) or (order in (2, 4, 6, 8) and eff != order):
+            bad = ("fd.fd_order is not an offered order / not the requested one",
+                   {"requested": order, "reported": eff})
+    if bad is None:
+        m = eff // 2
         for dim in (1, 2, 3):
             f = np.arange(float(np.prod(N[:dim]))).reshape(N[:dim])
             for w, fn in ((m, fd.cutoffmask), (2 * m, fd.cutoffmask2)):
@@ -252,10 +259,16 @@ def run_case(spec):
         for a in range(3):
             if a != long_ax:
                 axes[a] = (int(rng.integers(2, 9)),) + axes[a][1:]
-        order = int(rng.choice([2, 4, 6, 8]))
+        order = int(rng.choice([2, 4, 6, 8, 2, 4, 6, 8, 3, 7, 10]))
         par = {}
         for a, c in enumerate('xyz'):
             par['N' + c], par[c + 'min'], par['d' + c] = axes[a]
+        if rng.random() < 0.15:
+            # the same grid in other units (boxes of 1e-9 or 1e6 across)
+            u = float(rng.choice([1e-9, 1e-12, 1e6]))
+            for c in 'xyz':
+                par[c + 'min'] = par[c + 'min'] * u
+                par['d' + c] = par['d' + c] * u
         if rng.random() < 0.4:
             # dictionaries coming from parameters() also carry domain bounds
             for c in 'xyz':
@@ -273,7 +286,7 @@ def run_case(spec):
             check_grid(res, par_b, order)
         if todo and i % (spec['n'] // todo) == 0:
             # consumers need room for the stencils: at least 3p/2+1 points
-            n0 = 3 * order // 2 + 1
+            n0 = 3 * (order if order in (2, 4, 6, 8) else 4) // 2 + 1
             par2 = dict(par)
             for c in 'xyz':
                 par2['N' + c] = max(n0, min(par2['N' + c], 14)) + int(rng.integers(0, 3))
